@@ -1218,6 +1218,11 @@ class CodeGenerator(NodeVisitor):
         test_frame = frame.inner()
         else_frame = frame.inner()
 
+        # A recursive loop is rendered by a function of its own, its else
+        # branch can't leave an enclosing loop.
+        if node.recursive:
+            else_frame.in_loop = False
+
         # try to figure out if we have an extended loop.  An extended loop
         # is necessary if the loop is in recursive mode if the special loop
         # variable is accessed in the body if the body is a scoped block.
